@@ -3,15 +3,16 @@
 EXTENDS Cli, Json, IOUtils, SequencesExt, FiniteSetsExt
 
 CloneModes ==
-  {mm \in [cmd : {"clone"}, out : {"absent", "regular", "bd_small", "bd_equal", "bd_large"}, force : BOOLEAN, inplace : BOOLEAN,
+  {mm \in [cmd : {"clone"}, out : {"absent", "regular", "bd_small", "bd_tail", "bd_equal", "bd_large"}, force : BOOLEAN, inplace : BOOLEAN,
            arch : {"valid", "invalid"}, pin : {"none", "match", "mismatch"}, nseeds : {0, 2}, stdin_seed : BOOLEAN,
-           verify_out : BOOLEAN, transport : {"local", "http"}, empty_input : {FALSE}] :
+           verify_out : BOOLEAN, transport : {"local", "http"}, empty_input : {FALSE}, stale_tmp : {"none"}] :
      /\ (mm.arch = "invalid" => mm.pin = "none")
      \* keep the product focused: seeds / stdin / verification / http vary only for modes that proceed or are refused late
      /\ (mm.nseeds > 0 \/ mm.stdin_seed \/ mm.verify_out \/ mm.transport = "http") => (mm.arch = "valid" /\ mm.pin # "mismatch")}
 CompressModes ==
   {[cmd |-> "compress", out |-> o, force |-> f, inplace |-> FALSE, arch |-> "valid", pin |-> "none", nseeds |-> 0, stdin_seed |-> s,
-    verify_out |-> FALSE, transport |-> "local", empty_input |-> e] : o \in {"absent", "regular"}, f \in BOOLEAN, s \in BOOLEAN, e \in BOOLEAN}
+    verify_out |-> FALSE, transport |-> "local", empty_input |-> e, stale_tmp |-> st]
+   : o \in {"absent", "regular"}, f \in BOOLEAN, s \in BOOLEAN, e \in BOOLEAN, st \in {"none", "longer", "shorter"}}
 Modes == CloneModes \cup CompressModes
 
 Init == /\ m \in Modes
